@@ -36,7 +36,7 @@ def result(ob, func, status, kind="deciding", backend="", time_s=0.0, model=None
 
 
 def prove(ob, func, hyp, goal, kind="deciding", timeout_s=10.0, model_vars=None, text="", replay=None, case="",
-          known=None, nia=False, plain=False):
+          known=None, nia=False, plain=False, cvc5_first=False):
     """Discharge `hyp => goal`.  `known`: optional list of (finding_id, z3 condition) — a `sat` answer is
     re-solved with every known condition excluded; if that is unsat the result is tagged known=<ids>."""
     import z3
@@ -55,16 +55,22 @@ def prove(ob, func, hyp, goal, kind="deciding", timeout_s=10.0, model_vars=None,
     if ax:
         hyp = z3.And(hyp, *ax)
     saved = _solve.VIOLATION_BUDGET["left"]
+    saved_unknown = _solve.UNKNOWN_BUDGET["left"]
     if kind in ("canary", "cover"):
         # vacuity guards are decided on the formula with Bool-valued array predicates abstracted to opaque atoms
         # (keyed by term identity): keeps the satisfiability query in plain arithmetic.
         from .sym import _abstract_array_predicates
         _solve.VIOLATION_BUDGET["left"] = 1
         hyp, goal = _abstract_array_predicates([hyp, goal])
-    r = discharge(hyp, goal, timeout_s=timeout_s, model_vars=model_vars)
+    r = discharge(hyp, goal, timeout_s=timeout_s, model_vars=model_vars, cvc5_first=cvc5_first)
     if kind in ("canary", "cover"):
         _solve.VIOLATION_BUDGET["left"] = saved
         _solve.UNKNOWN_BUDGET["left"] = max(_solve.UNKNOWN_BUDGET["left"], 1)
+    elif kind == "auxiliary":
+        # auxiliary obligations never decide anything (a failed one is reported as contract drift): they must not use up the
+        # violation / unknown budgets of the deciding obligations of the same case either
+        _solve.VIOLATION_BUDGET["left"] = saved
+        _solve.UNKNOWN_BUDGET["left"] = max(_solve.UNKNOWN_BUDGET["left"], saved_unknown)
     extra = {}
     if r["status"] == "violated" and known:
         hits = []
@@ -292,7 +298,21 @@ def run_check(modname, tier="quick", seed=0, update_ledger=False, only_case=None
             bounded = mod.bounded(tier, seed)
             bounded_violations = bounded.pop("violations", [])
         except BaseException as e:  # noqa
-            crashes.append(dict(case="bounded", crash="".join(traceback.format_exception(type(e), e, e.__traceback__))[-3000:]))
+            tb_text = "".join(traceback.format_exception(type(e), e, e.__traceback__))[-3000:]
+            frames = traceback.extract_tb(e.__traceback__)
+            in_repo = [f for f in frames if os.path.abspath(f.filename).startswith(os.path.abspath(REPO) + os.sep)]
+            drift = isinstance(e, (AttributeError, TypeError, NameError, ImportError, KeyboardInterrupt, MemoryError))
+            if in_repo and not drift:
+                # the REAL code raised while the bounded tier drove it through its own entry points: that is an observation about
+                # /repo (reported as a bounded violation, replayable by re-running the tier), not a defect of the checker.
+                # Exceptions typical of interface drift between harness and code (AttributeError, TypeError, ...) stay checker crashes.
+                where = in_repo[-1]
+                bounded = dict(evaluations=1, distinct_nontrivial=1, rule="bounded tier aborted: the real code raised", samples=[], bound="aborted")
+                bounded_violations = [dict(ob="bounded/real-code-raised", func=f"{os.path.relpath(where.filename, REPO)}:{where.name}", input=None,
+                                           text=f"the real code raised {type(e).__name__}: {str(e)[:300]} at {os.path.relpath(where.filename, REPO)}:{where.lineno} ({where.name}) during the bounded tier",
+                                           detail=tb_text[-1500:], replay=None)]
+            else:
+                crashes.append(dict(case="bounded", crash=tb_text))
 
     known_findings = {f["id"]: f for f in load_known_findings() if f.get("property") == prop}
     lines = []
@@ -449,11 +469,13 @@ def run_check(modname, tier="quick", seed=0, update_ledger=False, only_case=None
     if crashes:
         for c in crashes:
             print(f"CHECKER-CRASH case={c['case']}\n{c['crash']}")
-        return 3
     if violation_lines:
+        # an established violation (counter-model / failed obligation) stands whatever else went wrong in other cases
         for l in violation_lines:
             print(l)
         return 1
+    if crashes:
+        return 3
     if undecided or missing:
         for r, w in undecided[:30]:
             print(f"UNDECIDED {r['ob']}: {w}" + (f" — {str(r.get('text'))[:300]}" if r.get("text") else ""))
